@@ -106,11 +106,23 @@ def d1(ctx):
     ok = order[:2] == ["add_slot", "weak_shape_impl"]
     first = [c for c in ws.calls if c.callee and c.callee.name == "add_slot"]
     okb = bool(first) and role_mentions_field(ws.role_of_operand(first[0].args[0]), "slot") and ws.dominated_by([c for c in ws.calls if c.callee and c.callee.name == "weak_shape_impl"][0].bb, [first[0].bb])
+    if first and getattr(crate.bodies.get(first[0].callee.target), "out_param_as_return", None):
+        # by-value numbering helper: its answer becomes the binder
+        back = [s_ for bi_, si_, s_ in ws.statements() if s_["k"] == "assign" and mir.place_fields(s_["lhs"]) and mir.place_fields(s_["lhs"])[-1][1] == "slot" and role_mentions_call(ws.role_of_rvalue(s_["rv"]), "add_slot")]
+        okb = okb and bool(back)
     ctx.check(ok and okb, "bind-shape-order", "Bind::weak_shape_impl numbers the binder (always a new number) before visiting the element", "Bind::weak_shape_impl visits in the order %s" % order, where_of(ws))
     # AppliedId / Slot weak_shape_impl use on_see_slot over the same occurrences
     for ty, meth in (("types::AppliedId", "values"), ("slot::Slot", None)):
         w = impls[ty]["weak_shape_impl"]
         sees = [c for c in w.all_calls() if c.callee and c.callee.name == "on_see_slot"]
+        for c_ in sees:
+            t_ = crate.bodies.get(c_.callee.target)
+            if t_ is not None and getattr(t_, "out_param_as_return", None):
+                # by-value helper: its answer has to be written over the occurrence it was asked about
+                back = [s_ for sub_ in w.all_bodies() for bi_, si_, s_ in sub_.statements() if s_["k"] == "assign" and s_["lhs"]["p"] and s_["lhs"]["p"][-1] == "*"
+                        and role_mentions_call(sub_.role_of_rvalue(s_["rv"]), "on_see_slot")]
+                ctx.check(bool(back), "shape-name-written-back:" + ty, "%s::weak_shape_impl writes the helper's answer over the occurrence" % ty,
+                          "%s::weak_shape_impl asks the by-value numbering helper for the shape name but does not write it over the occurrence: the node keeps its own slot names" % ty, where_of(w))
         ctx.check(len(sees) == 1, "shape-uses-on-see-slot:" + ty, "%s::weak_shape_impl numbers its occurrences through on_see_slot" % ty, "%s::weak_shape_impl has %d on_see_slot calls" % (ty, len(sees)), where_of(w))
         for l in C.iterator_loops(w):
             ctx.check(C.loop_exhaustive(w, l), "shape-loop-exhaustive:" + ty, "all occurrences are numbered", "%s::weak_shape_impl can stop early" % ty, where_of(w, l[0]))
@@ -402,6 +414,9 @@ def n2(ctx):
         return isinstance(r, tuple) and r[0] == "call" and r[1] == "numeric"
     oki = len(ins) == 1 and is_numeric(a.role_of_operand(ins[0].args[2])) and strip_role(a.role_of_operand(ins[0].args[1]))[0] in ("param",)
     st = [s for bi, si, s in a.statements() if s["k"] == "assign" and s["lhs"]["p"] == ["*"] and s["lhs"]["l"] == a.param_index("s")]
+    if getattr(a, "out_param_as_return", None):
+        # by-value form (`fn add_slot(s: Slot, m) -> Slot`): the new name is returned, the callers write it over the occurrence (D1)
+        st = [s for bi, si, s in a.statements() if s["k"] == "assign" and not s["lhs"]["p"] and s["lhs"]["l"] == 0]
     # what is written over the occurrence and recorded is the number itself on every path (not "the old name in some case")
     oki = oki and all(is_numeric(a.role_of_rvalue(s_["rv"])) for s_ in st)
     ctx.check(len(inc) == 1 and oki and len(st) == 1, "counter-step-and-record", "add_slot bumps the counter by one, records old -> new and overwrites the occurrence", "add_slot no longer does counter += 1 / record / overwrite exactly once (inc=%d, insert ok=%s, stores=%d)" % (len(inc), oki, len(st)), where_of(a))
@@ -409,6 +424,8 @@ def n2(ctx):
     g = [c for c in o.calls if c.callee and c.callee.name == "get"]
     ad = [c for c in o.calls if c.callee and c.callee.target == a.id]
     reuse = [s for bi, si, s in o.statements() if s["k"] == "assign" and s["lhs"]["p"] == ["*"] and role_mentions_call(o.role_of_rvalue(s["rv"]), "get")]
+    if getattr(o, "out_param_as_return", None):
+        reuse = [s for bi, si, s in o.statements() if s["k"] == "assign" and not s["lhs"]["p"] and s["lhs"]["l"] == 0 and role_mentions_call(o.role_of_rvalue(s["rv"]), "get")]
     ok = len(g) == 1 and len(ad) == 1 and len(reuse) == 1
     if ok:
         none_e = []
